@@ -286,19 +286,35 @@ def finding(fid):
         return r
     if fid == "F25-7z-empty-file-taken-for-directory":
         entries = [("a.txt", b"alpha"), ("empty.txt", b""), ("b.txt", b"bravo")]
-        r = matrix(lambda l: l == "7z-copy-solid", [entries], skip_recorded=False)
-        z = matrix(lambda l: l.startswith("zip") or l.startswith("tar"), [entries])
-        if r is not None and z is None:
-            r["observed"] += " (zip and tar archives of the same members yield the empty file's result)"
-            return r
+        data = write7z(entries, "copy", True)
+        got, err = run_archive(data, "a.7z")
+        want = expected(entries, "a.7z")
+        if any(w[0] == "empty.txt" for w in want) and not any(g[0] == "empty.txt" for g in got):
+            return {"target": "archive_extractor.py::read_archive", "inputs": {"layout": "7z-copy-solid", "members": [[n, f"{len(b)} bytes"] for n, b in entries],
+                                                                               "archive_hex": data.hex()},
+                    "expected": "a result for the zero-length member empty.txt (direct extraction yields one; ZIP and TAR archives of the same members do too)",
+                    "observed": f"results for {[g[0] for g in got]} only" + (f"; {err}" if err else "")}
         return None
     if fid == "F26-plain-tar-first-name-starts-with-another-magic":
+        from sharepoint2text.parsing.extractors.archive_extractor import _detect_archive_type_optimized
         entries = [("BZ_readme.txt", b"hello"), ("b.txt", b"bravo")]
-        return matrix(lambda l: l == "tar", [entries])
+        data = write_tar(entries, "w")
+        det = _detect_archive_type_optimized(io.BytesIO(data))
+        got, err = run_archive(data, "a.tar")
+        if det != "tar":
+            return {"target": "archive_extractor.py::_detect_archive_type_optimized", "inputs": {"layout": "tar", "members": [[n, f"{len(b)} bytes"] for n, b in entries]},
+                    "expected": "detected as 'tar' (ustar magic at offset 257); members yielded",
+                    "observed": f"detected as {det!r}; read_archive: {err or [g[0] for g in got]}"}
+        return None
     if fid == "F27-empty-plain-tar-not-recognised":
-        r = matrix(lambda l: l == "tar", [[]], skip_recorded=False)
-        z = matrix(lambda l: l != "tar", [[]])
-        return r if (r is not None and z is None) else None
+        from sharepoint2text.parsing.extractors.archive_extractor import _detect_archive_type_optimized
+        data = write_tar([], "w")
+        det = _detect_archive_type_optimized(io.BytesIO(data))
+        got, err = run_archive(data, "a.tar")
+        if det != "tar":
+            return {"target": "archive_extractor.py::_detect_archive_type_optimized", "inputs": {"layout": "tar", "members": [], "archive": f"{len(data)} NUL bytes"},
+                    "expected": "detected as 'tar'; no results", "observed": f"detected as {det!r}; read_archive: {err or got}"}
+        return None
     return None
 
 
